@@ -141,16 +141,12 @@ impl<'a> Ctx<'a> {
     /// variable usable at a position of type `loc` (with `loc_has_default`)
     fn var_for(&mut self, ch: &mut Choices, loc: &MType, loc_has_default: bool) -> MValue {
         // compatible existing variables: exact type, or stricter
+        let stricter_ok = self.o.stricter_var_types;
         let compatible = |v: &MVarDef| -> bool {
             if &v.ty == loc {
                 return true;
             }
-            if let MType::NonNull(inner) = &v.ty {
-                if inner.as_ref() == loc {
-                    return true;
-                }
-            }
-            false
+            stricter_ok && types_compatible(&v.ty, loc)
         };
         let existing: Vec<String> = self.vars.iter().filter(|v| compatible(v)).map(|v| v.name.clone()).collect();
         if !existing.is_empty() && ch.chance(1, 2) {
@@ -159,9 +155,16 @@ impl<'a> Ctx<'a> {
         let name = format!("v{}", self.vars.len());
         let mut ty = loc.clone();
         let mut default = None;
-        if !loc.is_non_null() && self.o.stricter_var_types && ch.chance(1, 4) {
-            ty = MType::non_null(loc.clone());
-            self.labels.insert("nonnull-var-in-nullable-position");
+        if self.o.stricter_var_types && ch.chance(1, 3) {
+            // spec AreTypesCompatible: the variable's type may be non-null at any level where the
+            // location is nullable ([T!] for [T], [[T]!]! for [[T]], T! for T)
+            ty = stricter_type(ch, loc);
+            if &ty != loc {
+                self.labels.insert("nonnull-var-in-nullable-position");
+                if ty.nullable().list_depth() > 0 && ty.nullable() != loc.nullable() {
+                    self.labels.insert("stricter-list-element-var");
+                }
+            }
         } else if loc.is_non_null() && self.o.nullable_var_default_in_nonnull && self.o.variable_defaults && ch.chance(1, 5) {
             // nullable variable with a non-null default in a non-null position
             ty = loc.nullable().clone();
@@ -853,4 +856,33 @@ pub fn gen_doc(ch: &mut Choices, s: &Schema, o: &DocGenOpts) -> (GenDoc, bool) {
         ch.shuffle(&mut doc);
     }
     (GenDoc { doc, labels: cx.labels }, stripped)
+}
+
+/// spec AreTypesCompatible(variableType, locationType)
+pub fn types_compatible(var_ty: &MType, loc_ty: &MType) -> bool {
+    match (var_ty, loc_ty) {
+        (MType::NonNull(v), MType::NonNull(l)) => types_compatible(v, l),
+        (_, MType::NonNull(_)) => false,
+        (MType::NonNull(v), l) => types_compatible(v, l),
+        (MType::List(v), MType::List(l)) => types_compatible(v, l),
+        (MType::List(_), _) | (_, MType::List(_)) => false,
+        (MType::Named(a), MType::Named(b)) => a == b,
+    }
+}
+
+/// a type compatible with `loc` that is non-null at some levels where `loc` is nullable
+pub fn stricter_type(ch: &mut Choices, loc: &MType) -> MType {
+    match loc {
+        MType::NonNull(inner) => MType::NonNull(Box::new(stricter_type_nullable(ch, inner))),
+        other => {
+            let t = stricter_type_nullable(ch, other);
+            if ch.chance(1, 2) { MType::NonNull(Box::new(t)) } else { t }
+        }
+    }
+}
+fn stricter_type_nullable(ch: &mut Choices, t: &MType) -> MType {
+    match t {
+        MType::List(inner) => MType::List(Box::new(stricter_type(ch, inner))),
+        other => other.clone(),
+    }
 }
